@@ -150,7 +150,8 @@ YieldOnly(P) == \A x \in AllOps(P) : OpAt(P, x).o # "sync"
 HasCtxType(P, ty) == \E c \in 1..Len(P.ctxs) : P.ctxs[c].type = ty
 NoFaultyCtx(P) == \A c \in 1..Len(P.ctxs) : P.ctxs[c].faulty = "-"
 NoSpawnKind(P) == \A k \in 1..Len(P.kinds) : P.kinds[k].flush # "spawn"
-SeqDomain(P) == NoFaultyCtx(P) /\ ~HasCtxType(P, "nonasync") /\ NoSpawnKind(P)   \* where sequential evaluation is the oracle
+NoStackLimit(P) == "maxstack" \notin DOMAIN P
+SeqDomain(P) == NoFaultyCtx(P) /\ ~HasCtxType(P, "nonasync") /\ NoSpawnKind(P) /\ NoStackLimit(P)   \* where sequential evaluation is the oracle
 
 (* every task is named at most once (as T leaf or sync target) in the whole program *)
 TaskRefs(P) ==     \* sequence of referenced task ids, with repetitions
